@@ -59,6 +59,25 @@ def handle (args : List String) : String :=
       | none => "none"
       | some t => s!"{showTS t.exec} {showTS t.steps} {showTS t.bool} {showTS t.float} {showTS t.int}"
     | _, _, _, _, _, _ => "bad-request"
+  | "gts" :: e :: st :: stacks :: ";" :: call =>
+    -- generic automaton: `builder gts <exec> <steps> <s1,s2,…> ; maxAll | maxOf i | valuesOf i | program | noProgram | stepLimit | build`
+    match parseTS e, parseTS st, (stacks.splitOn ",").mapM parseTS with
+    | some e, some st, some ss =>
+      let t : GState := { exec := e, steps := st, stacks := ss }
+      let showG (g : GState) : String := s!"{showTS g.exec} {showTS g.steps} {",".intercalate (g.stacks.map showTS)}"
+      let c? : Option GCall := match call with
+        | ["maxAll"] => some .maxAll
+        | ["maxOf", i] => i.toNat?.map .maxOf
+        | ["valuesOf", i] => i.toNat?.map .valuesOf
+        | ["program"] => some .program
+        | ["noProgram"] => some .noProgram
+        | ["stepLimit"] => some .stepLimit
+        | _ => none
+      match call, c? with
+      | ["build"], _ => if gbuildable t then "BUILT" else "none"
+      | _, some c => match gstep t c with | none => "none" | some g => showG g
+      | _, none => "bad-request"
+    | _, _, _ => "bad-request"
   | ["buildable", e, s, b, f, i] =>
     match parseTS e, parseTS s, parseTS b, parseTS f, parseTS i with
     | some e, some s, some b, some f, some i =>
